@@ -43,7 +43,7 @@ def make_form(rng, i):
     cfg = common.rich_cfg(rng, langs=langs, p_translated=rng.choice([0.6, 0.9]), p_sparse=rng.choice([0.0, 0.3, 0.6]),
                           unsuffixed_too=rng.choice([0.0, 0.4, 0.8]), p_label_ref=0, p_choice_label_ref=0, p_hint=0.5, p_guidance=0.35, p_media=0.35,
                           p_constraint=0.5, p_constraint_msg=0.9, p_required=0.4, p_required_msg=0.8, p_choice_media=0.3, p_section_media=0.15,
-                          p_or_other=rng.choice([0, 0.25]), p_select=0.35, p_search=0, p_trigger=0, p_choice_nolabel=0, delim=rng.choice(["::", "::", ":"]),
+                          p_or_other=rng.choice([0, 0.25]), p_select=0.35, p_search=0, p_trigger=0, p_choice_nolabel=rng.choice([0, 0, 0.25]), delim=rng.choice(["::", "::", ":"]),
                           p_bind_extra=0, p_instance_extra=0, p_body_extra=0, p_msg_ref=rng.choice([0, 0.4]))
     f = gen.gen_form(rng, cfg)
     mode = i % 4
